@@ -20,6 +20,9 @@ type c05Spec struct {
 	Build   string       `json:"build"` // small | nested | big
 	Seed    uint64       `json:"seed"`
 	Damages []lib.Damage `json:"damages"`
+	// Sibling: the validator contexts of this case have been used before, on a pristine SIBLING build (same paths and
+	// sizes, every byte xor 0xa5) with the sibling's own signature
+	Sibling bool `json:"sibling,omitempty"`
 }
 
 // valBuild returns the reference builds used by C05/C06/C16.
@@ -59,6 +62,10 @@ func valBuild(name string, seed uint64) *lib.Build {
 		b.PutSymlink("lnk-file", "top.bin")
 		b.PutSymlink("sub/lnk-dir", "deep")
 		b.PutSymlink("dangling", "nowhere/at/all")
+		// legal destinations that are not in their shortest form: carried verbatim
+		b.PutSymlink("lnk-odd-dot", "./top.bin")
+		b.PutSymlink("sub/lnk-odd-up", "../sub/deep/")
+		b.PutSymlink("lnk-odd-slashes", "sub//deep/./two.bin")
 	default: // small
 		b.PutFile("e.bin", nil)
 		b.PutFile("t.bin", rb(10))
@@ -69,6 +76,7 @@ func valBuild(name string, seed uint64) *lib.Build {
 		b.PutFile("t-twin.bin", b.E["t.bin"].Data)   // same bytes as t.bin
 		b.PutFile("b2-twin.bin", b.E["b2.bin"].Data) // same bytes as b2.bin
 		b.PutSymlink("lnk", "t.bin")
+		b.PutSymlink("lnk-odd", "./emptydir/../t.bin")
 		b.PutDir("emptydir")
 		b.PutDir("emptydir2")
 	}
@@ -113,6 +121,12 @@ func treeDamages(b *lib.Build) []lib.Damage {
 				}
 			}
 		case lib.KSymlink:
+			// retargeted to another SPELLING of the signed destination (the destination string is what is signed)
+			for _, sp := range []string{"./" + e.Dest, e.Dest + "/", "x/../" + e.Dest, filepath.Clean(e.Dest)} {
+				if sp != e.Dest {
+					out = append(out, lib.Damage{Op: "retarget", Path: e.Path, S: sp})
+				}
+			}
 			out = append(out, lib.Damage{Op: "rmsymlink", Path: e.Path}, lib.Damage{Op: "retarget", Path: e.Path, S: e.Dest + "x"},
 				lib.Damage{Op: "tofile", Path: e.Path}, lib.Damage{Op: "todir", Path: e.Path}, lib.Damage{Op: "tononemptydir", Path: e.Path})
 		}
@@ -161,6 +175,29 @@ func c05Cases(tier string, seed uint64, flavor string) []lib.Case {
 				}
 				cases = append(cases, lib.Case{Kind: "combo", Spec: lib.MustSpec(c05Spec{Build: name, Seed: bs, Damages: combo})})
 			}
+		}
+	}
+	// validator contexts that were used before on a sibling build (same layout, other content, other signature)
+	for _, name := range builds {
+		bs := lib.Mix(seed, 5, 0)
+		b := valBuild(name, bs)
+		cases = append(cases, lib.Case{Kind: "sibling:undamaged", Spec: lib.MustSpec(c05Spec{Build: name, Seed: bs, Sibling: true})})
+		for _, e := range b.Files() {
+			nb := (int64(len(e.Data)) + lib.BS - 1) / lib.BS
+			for k := int64(0); k < nb && k < 4; k++ {
+				n := int64(len(e.Data)) - k*lib.BS
+				if n > lib.BS {
+					n = lib.BS
+				}
+				// a whole block that now holds what the SIBLING has there
+				cases = append(cases, lib.Case{Kind: "sibling:block", Spec: lib.MustSpec(c05Spec{Build: name, Seed: bs, Sibling: true,
+					Damages: []lib.Damage{{Op: "garble", Path: e.Path, N: k * lib.BS, S: fmt.Sprint(n)}}})})
+			}
+		}
+		r := lib.NewRng(lib.Mix(bs, 56))
+		ds := treeDamages(b)
+		for i := 0; i < 25; i++ {
+			cases = append(cases, lib.Case{Kind: "sibling:single", Spec: lib.MustSpec(c05Spec{Build: name, Seed: bs, Sibling: true, Damages: []lib.Damage{ds[r.Intn(len(ds))]}})})
 		}
 	}
 	// the 9 MiB build: a reduced damage list (its block count makes the full list expensive)
@@ -231,8 +268,46 @@ func c05Run(c lib.Case, env *lib.Env) lib.Result {
 	deviates := len(truth) > 0
 	desc := fmt.Sprintf("build=%s damages=%v", s.Build, s.Damages)
 
+	// contexts that have been used before (on the sibling build) or fresh ones
+	ffCtx := &pwr.ValidatorContext{FailFast: true, Consumer: lib.Quiet()}
+	wp := filepath.Join(env.Scratch, "wounds.pww")
+	vctx := &pwr.ValidatorContext{WoundsPath: wp, Consumer: lib.Quiet()}
+	if s.Sibling {
+		sib := lib.NewBuild()
+		for _, e := range ref.Sorted() {
+			switch e.Kind {
+			case lib.KFile:
+				d := append([]byte(nil), e.Data...)
+				for i := range d {
+					d[i] ^= 0xa5
+				}
+				sib.PutFile(e.Path, d)
+			case lib.KDir:
+				sib.PutDir(e.Path)
+			case lib.KSymlink:
+				sib.PutSymlink(e.Path, e.Dest)
+			}
+		}
+		sibDir := filepath.Join(env.Scratch, "sibling")
+		sibSig, err := signBuild(sib, sibDir)
+		if err != nil {
+			res.Inconclusive("sign sibling: " + err.Error())
+			return res
+		}
+		if err := ffCtx.Validate(context.Background(), sibDir, sibSig); err != nil {
+			res.Violate("failfast-rejects-valid", desc, "pristine sibling build: "+err.Error())
+		}
+		if err := vctx.Validate(context.Background(), sibDir, sibSig); err != nil {
+			res.Violate("validate-error-on-valid", desc, "pristine sibling build: "+err.Error())
+		}
+		os.Remove(wp)
+		res.Add("cases_with_validator_contexts_used_before_on_a_sibling_build", 1)
+	}
 	// fail-fast mode
-	ffErr := pwr.AssertValid(dir, sig)
+	ffErr := ffCtx.Validate(context.Background(), dir, sig)
+	if !s.Sibling {
+		ffErr = pwr.AssertValid(dir, sig)
+	}
 	res.Add("failfast_validations", 1)
 	if deviates && ffErr == nil {
 		res.Violate("failfast-declares-damaged-valid", desc, "deviations: "+strings.Join(lib.DiffStrings(truth, 5), "; "))
@@ -241,8 +316,6 @@ func c05Run(c lib.Case, env *lib.Env) lib.Result {
 		res.Violate("failfast-rejects-valid", desc, ffErr.Error())
 	}
 	// wounds-file mode
-	wp := filepath.Join(env.Scratch, "wounds.pww")
-	vctx := &pwr.ValidatorContext{WoundsPath: wp, Consumer: lib.Quiet()}
 	verr := vctx.Validate(context.Background(), dir, sig)
 	res.Add("wounds_validations", 1)
 	if verr != nil {
@@ -336,7 +409,7 @@ func damageShape(ds []lib.Damage) string {
 	for _, d := range ds {
 		cl := ""
 		switch d.Op {
-		case "flip", "truncate", "extend", "fill":
+		case "flip", "truncate", "extend", "fill", "weakkeep":
 			switch {
 			case d.N == 0:
 				cl = "0"
@@ -359,7 +432,7 @@ func init() {
 	lib.Register(&lib.Property{
 		ID:          "C05",
 		Level:       "fault_enumeration",
-		Rule:        "for each reference build (files of 0, 10, 64K-1, 64K, 128K, 3*64K+100 bytes, 9 MiB; nested dirs; symlinks incl. dangling and to a directory) every damage of the boundary list is applied alone (bit flips at first/last byte of every block, truncation to every block boundary ±1, extension inside/up to/past the last block, fill of empty files, delete, kind swaps incl. directory -> symlink to a sibling with equal child names, retarget/delete symlinks) plus random combinations of 2-5 damages; each damaged tree is validated fail-fast and in wounds-file mode; truth = byte-wise comparison of the damaged tree with the reference; wounds are read from the .pww file by the independent decoder. distinct = distinct (build, damage classes, path + boundary class of the offset)",
+		Rule:        "for each reference build (files of 0, 10, 64K-1, 64K, 128K, 3*64K+100 bytes, 9 MiB; nested dirs; symlinks incl. dangling and to a directory) every damage of the boundary list is applied alone (bit flips at first/last byte of every block, truncation to every block boundary ±1, extension inside/up to/past the last block, fill of empty files, delete, kind swaps incl. directory -> symlink to a sibling with equal child names, retarget/delete symlinks, retarget to another SPELLING of the signed destination, a +1/-2/+1 edit that keeps the block's weak hash) plus random combinations of 2-5 damages; each damaged tree is validated fail-fast and in wounds-file mode; truth = byte-wise comparison of the damaged tree with the reference; wounds are read from the .pww file by the independent decoder. A case group reuses validator contexts that validated a pristine sibling build (same paths and sizes, every byte xor 0xa5, own signature) before, with damages that put the sibling's bytes into whole blocks. distinct = distinct (build, damage classes, path + boundary class of the offset)",
 		Assumptions: []string{"a non-nil error from non-fail-fast Validate counts as 'not declared valid' and leaves the coverage clauses unevaluated for that case (counted)", "offsets at or beyond the damaged file's own length are covered by the length clause, not the per-offset clause"},
 		Cases:       c05Cases,
 		Run:         c05Run,
